@@ -117,6 +117,9 @@ def run_case(ctx, res, p):
     # the 1e-12 squared-distance regulariser does not scale with the data: in units of the length scale it is
     # rho = 1e-12 / ls^2, different in the two problems when the data are rescaled (exact law carries eps/a^2)
     rho = abs(1e-12 / float(e2.ls) ** 2 - 1e-12 / float(e1.ls) ** 2)
+    if p["estimator"] == "time":
+        # the time kernel carries the same regulariser in units of ls_time (rescaled with the time axis)
+        rho += abs(1e-12 / float(ls_time2) ** 2 - 1e-12 / float(ls_time1) ** 2)
     res.dev("regulariser_rho", rho)
     # ---- tight: the inference problem
     if p["estimator"] != "dim":
@@ -146,12 +149,20 @@ def run_case(ctx, res, p):
         L1, L2 = np.asarray(e1.L, float), np.asarray(e2.L, float)
         R = None
         if L1.shape == L2.shape:
-            R = np.linalg.lstsq(L1, L2, rcond=None)[0]
-            r_orth = float(np.max(np.abs(R.T @ R - np.eye(R.shape[0]))))
-            r_fit = float(np.max(np.abs(L1 @ R - L2)) / max(np.max(np.abs(L2)), 1e-300))
-            res.dev("factor_orthogonal_map_dev", max(r_orth, r_fit))
-            if max(r_orth, r_fit) > 1e-5 + 2e4 * rho:
-                R = None
+            lscale = max(np.max(np.abs(L2)), 1e-300)
+            ftol = 1e-5 + 2e4 * rho
+            if np.max(np.abs(L1 - L2)) / lscale <= ftol:
+                R = np.eye(L1.shape[1])
+                res.dev("factor_map_fit_over_tol", float(np.max(np.abs(L1 - L2)) / lscale / ftol))
+            else:
+                # orthogonal Procrustes: the orthogonal R closest to mapping L1 onto L2 (exactly orthogonal also when L
+                # is rank deficient, e.g. inducing points far from every cell)
+                U_, _, Vt_ = np.linalg.svd(L1.T @ L2)
+                Rp = U_ @ Vt_
+                r_fit = float(np.max(np.abs(L1 @ Rp - L2)) / lscale)
+                res.dev("factor_map_fit_over_tol", r_fit / ftol)
+                if r_fit <= ftol:
+                    R = Rp
         if R is None:
             res.oracle_fail("the covariance factors of the two problems are not related by an orthogonal map of the latent "
                             "coordinates (L L^T changes under the transformation)", p,
